@@ -171,7 +171,10 @@ func writeWidth(c *Ctx, ci ssa.CallInstruction, isTarget func(ssa.Value) bool, d
 		}
 		// binary.Write(w, order, x)
 		if f.Pkg() != nil && f.Pkg().Path() == "encoding/binary" && name == "Write" && len(cc.Args) == 3 && isTarget(cc.Args[0]) {
-			t := unwrap(cc.Args[2]).Type()
+			t := cc.Args[2].Type()
+			if mi, ok := cc.Args[2].(*ssa.MakeInterface); ok {
+				t = mi.X.Type()
+			}
 			return int(c.Pkg("db").TypesSizes.Sizeof(t))
 		}
 		// helper taking the writer as first argument: analyse it (one level)
